@@ -35,6 +35,9 @@ func GetStringValue(rawString string) string {
 }
 
 func ByteSlice2String(bytes []byte) string {
+	if len(bytes) == 0 {
+		return ""
+	}
 	return unsafe.String(&bytes[0], len(bytes))
 }
 
